@@ -79,6 +79,8 @@ def main():
     else:
       meta = json.load(open(os.path.join(d, 'meta.json')))
       pids = sorted(meta.get('expected', {})) or [meta['property']]
+      if '--all' in sys.argv:
+        pids = PROPS
     jobs.append((mode, name, patch, pids))
   bad = 0
   with ProcessPoolExecutor(16) as ex:
@@ -98,6 +100,17 @@ def main():
         else:
           print('%-22s silent' % name)
       else:
+        if '--write-meta' in sys.argv and '--all' in sys.argv:
+          mp = os.path.join(VERIF, mode, name, 'meta.json')
+          meta = json.load(open(mp))
+          meta['detected_by'] = {p: r[1] for p, r in sorted(res.items()) if r[0] == 1}
+          own = meta['property']
+          exp = meta.setdefault('expected', {})
+          if own in meta['detected_by'] and not (set(exp.get(own, [])) & set(meta['detected_by'][own])):
+            exp[own] = meta['detected_by'][own]
+          with open(mp, 'w') as f:
+            json.dump(meta, f, indent=1)
+          res = {p: r for p, r in res.items() if p in exp or p == own}
         missed = {p: r for p, r in res.items() if r[0] != 1}
         if missed:
           bad += 1
